@@ -141,4 +141,23 @@ def readValidateDelim (colcheck : Bool) (cols : List Nat) (flags : List Bool) (m
   let sizes := (readAll (Fmt.kLine 1) true mode file k).map countNL
   reportedBoth colcheck 0 (splitBy sizes cols) (splitBy sizes flags)
 
+/-! ### lazy reading: the chunk's offset is captured when the chunk is read, used when a field is looked at -/
+
+/-- a lazily read chunk remembers the number of lines delivered before it (`ItemGetter._start_line`,
+captured by `NpDataclassReader.read_chunk` BEFORE it asks the reader for the chunk) -/
+structure LazyChunk where
+  start : Nat
+  rows : List Bool
+
+/-- reading lazily: nothing is parsed; every chunk is handed out with its captured start line, while
+the reader's own counter (`NumpyFileReader.n_lines_read`) moves on -/
+def readLazy : Nat → List (List Bool) → List LazyChunk
+  | _, [] => []
+  | linesRead, c :: cs => { start := linesRead, rows := c } :: readLazy (linesRead + c.length) cs
+
+/-- a field of a lazily read chunk is parsed when it is first looked at — possibly long after later
+chunks were read; `ItemGetter.__call__` adds the chunk's own start line -/
+def accessLazy (c : LazyChunk) : Option Nat := (firstBad id c.rows).map (· + c.start)
+
+
 end C15
